@@ -109,7 +109,9 @@ def run(rep, tier, seed):
                         if not (name in WRITE_OPS and tgt is not None and int(ofirst) == tgt):
                             bad = "cluster %s owned by a file (first cluster %s) that this operation does not write" % (c, ofirst)
                     elif okind in ("unowned", "bad"):
-                        if not (okind == "unowned" and jd.dirty.get(oi - 1, 0) > 0 and name in WRITE_OPS):
+                        # dirty handles after the most recent judged op (lines the executor rejected carry no count)
+                        prev_dirty = next((jd.dirty[k] for k in range(oi - 1, -1, -1) if k in jd.dirty), 0)
+                        if not (okind == "unowned" and prev_dirty > 0 and name in WRITE_OPS):
                             bad = "cluster %s which is %s" % (c, "marked bad" if okind == "bad" else "allocated but not owned by the file or directory being changed")
                 if bad:
                     ok = False
